@@ -700,3 +700,261 @@ def k19_pairing(mir, rep, srcdir):
         raise Inconclusive("K19 vacuity: drop glue paths %d" % cnt[0])
     rep.witnesses.append("pairing: parse_next %s, Event::drop + Parser::drop %d paths" % (sorted(seen), cnt[0]))
     rep.samples.append({"query": Q, "claim": "Event exists iff yaml_parser_parse succeeded; yaml_event_delete once per Event; yaml_parser_delete then Box::from_raw(read_state) dropped, once each"})
+
+
+# -------------------------------------------------------------------------------------------------
+# K21: the rewindable input handle's glue (src/input.rs) behind Box<dyn Read>
+# -------------------------------------------------------------------------------------------------
+
+def k21_handle_glue(mir, rep, srcdir):
+    """Handle::borrow_mut, From<Handle> for Input, TryFrom<Handle> for Cow, Ref::prefix and the guard's two accessors:
+    every borrow and every hand-over starts with a rewind; what is handed over is exactly (captured bytes, then the source)"""
+    Q = "K21.handle"
+    src_rs = os.path.join(srcdir, "src/input.rs")
+    X.load_enums(src_rs)
+    cf = struct_fields(src_rs, "CaptureReader")
+    if sorted(cf) != ["prefix", "source", "source_eof"]:
+        raise Inconclusive("CaptureReader fields %r" % cf)
+    PRE, SRC, EOF = ("f%d" % cf.index(n) for n in ("prefix", "source", "source_eof"))
+    for k, v in (("Cow::Borrowed", 0), ("Cow::Owned", 1), ("Borrowed", 0), ("Owned", 1)):
+        X.VARIANTS.setdefault(k, v)
+    for need in ("Input::Slice", "Input::Reader", "Ref::Slice", "Ref::Reader", "Source::Slice", "Source::Reader"):
+        if need not in X.VARIANTS:
+            raise Inconclusive("enum variant %s not loaded" % need)
+    V_ = X.VARIANTS
+    captured = pure_fn("captured_after", 2)
+
+    def mk_handler():
+        def h(ex, p, name, argv, dst, dst_type, cur_fn):
+            if name == "drop":
+                return None
+            if re.search(r"Cursor::<Vec<u8>>::set_position$", name):
+                new = fresh("cursor")
+                p.pc += [proj(new, "pos") == argv[1], proj(new, "buf") == proj(argv[0], "buf")]
+                tgt = ex.ref_target(p, cur_fn, ex.raw_args[0])
+                if tgt is None:
+                    raise Inconclusive("K21: set_position through an untracked reference")
+                ex.assign(p, tgt, new)
+                p.trace.append(("set_position", argv[1]))
+                return fresh("unit")
+            if re.search(r"Cursor::<Vec<u8>>::(get_ref|into_inner)$", name):
+                return proj(argv[0], "buf")
+            if re.search(r"Cursor::<Vec<u8>>::new$", name):
+                c = fresh("cursor")
+                p.pc += [asint(proj(c, "pos")) == 0, proj(c, "buf") == argv[0]]
+                return c
+            if re.search(r"^Vec::<u8>::new$", name):
+                return fresh("emptyvec")
+            if re.search(r"^Vec::<u8>::is_empty$", name):
+                r = fresh("isempty")
+                p.pc.append(asint(r) == z3.If(asint(pure_fn("vec_is_empty", 1)(argv[0])) != 0, 1, 0))
+                return r
+            if re.search(r"capture_(to_end|up_to_size)$", name):
+                r = fresh("captured")
+                p.pc.append(z3.Or(disc(r) == 0, disc(r) == 1))
+                n = len([t for t in p.trace if t[0] == "capture"])
+                p.trace.append(("capture", re.search(r"capture_(\w+)$", name).group(1), list(argv), r, n))
+                p.ghost = dict(p.ghost)
+                p.ghost["captures"] = n + 1
+                return r
+            if re.search(r"CaptureReader::<.*>::captured$", name) and p.ghost.get("captures"):
+                # after a capture step the buffer is what that step left behind
+                return captured(argv[0], ex.intv(p.ghost["captures"]))
+            if re.search(r"io::Read>::chain::<", name):
+                c = fresh("chain")
+                p.pc += [proj(c, "first") == argv[0], proj(c, "second") == argv[1]]
+                return c
+            if re.search(r"^Box::<.*>::new$", name):
+                return argv[0]
+            if re.search(r"^FusedReader::<.*>::new$", name):
+                f = fresh("fused")
+                p.pc += [disc(proj(f, "f0")) == 1, proj(proj(f, "f0"), "Some.0") == argv[0]]
+                p.trace.append(("fused_new",))
+                return f
+            if re.search(r"\(PointerCoercion\(Unsize", name):
+                return argv[0]
+            return None
+        return h
+
+    inl = {r"rewind_and_borrow_mut$", r"rewind_and_take$", r"CaptureReader::<.*>::rewind$", r"CaptureReader::<.*>::captured$", r"is_source_eof$",
+           r"CaptureReader::<.*>::into_inner$"}
+    seen = set()
+
+    def symbolic_handle(p, kind):
+        hd, srcv, b, g, cr, cur = fresh("handle"), fresh("source"), fresh("bytes"), fresh("guard"), fresh("capture"), fresh("cursor0")
+        p.pc.append(proj(hd, "f0") == srcv)
+        if kind == "slice":
+            p.pc += [disc(srcv) == V_["Source::Slice"], proj(srcv, "Slice.0") == b]
+        else:
+            p.pc += [disc(srcv) == V_["Source::Reader"], proj(srcv, "Reader.0") == g, proj(g, "f0") == cr, proj(cr, PRE) == cur,
+                     z3.Or(asint(proj(cr, EOF)) == 0, asint(proj(cr, EOF)) == 1), asint(proj(cur, "pos")) >= 0]
+        return hd, b, cr, cur
+
+    # ---- borrow_mut
+    fn = _find(mir, r"::borrow_mut$", "_1: &mut Handle<'_>")
+    for kind in ("slice", "reader"):
+        ex = X.Exec(mir, mk_handler())
+        ex.inline = inl
+        p0 = X.Path()
+        hd, b, cr, cur = symbolic_handle(p0, kind)
+
+        def fin(p, how, value, kind=kind, ex=ex, b=b, cr=cr, cur=cur):
+            if how == "dead":
+                return
+            if how != "return":
+                rep.bad(Q, "Handle::borrow_mut returns", {"kind": "handle"})
+                return
+            if kind == "slice":
+                seen.add("borrow:slice")
+                if p.trace or not ex.valid(p, z3.And(disc(value) == V_["Ref::Slice"], proj(value, "Slice.0") == b))[0]:
+                    rep.bad(Q, "borrowing a slice handle yields the whole slice", {"kind": "handle"})
+                return
+            sp = [t for t in p.trace if t[0] == "set_position"]
+            if len(sp) != 1 or not ex.valid(p, asint(sp[0][1]) == 0)[0]:
+                rep.bad(Q, "every borrow of a reader handle rewinds the capture reader to position 0 first (detection trials must each see the stream from its first byte)", {"kind": "handle"})
+                return
+            if ex.valid(p, asint(proj(cr, EOF)) != 0)[0]:
+                seen.add("borrow:eof")
+                if not ex.valid(p, z3.And(disc(value) == V_["Ref::Slice"], proj(value, "Slice.0") == proj(cur, "buf")))[0]:
+                    rep.bad(Q, "a reader whose source is exhausted is lent as the slice of everything captured", {"kind": "handle"})
+            elif ex.valid(p, asint(proj(cr, EOF)) == 0)[0]:
+                seen.add("borrow:reader")
+                r = proj(value, "Reader.0")
+                if not ex.valid(p, z3.And(disc(value) == V_["Ref::Reader"], asint(proj(proj(r, PRE), "pos")) == 0, proj(proj(r, PRE), "buf") == proj(cur, "buf"),
+                                          proj(r, SRC) == proj(cr, SRC), proj(r, EOF) == proj(cr, EOF)))[0]:
+                    rep.bad(Q, "a reader handle is lent as its own capture reader, rewound, with the captured bytes and the source untouched", {"kind": "handle"})
+            else:
+                rep.bad(Q, "borrow_mut decides on source_eof", {"kind": "handle"})
+        ex.run(fn, p0, [hd], fin)
+        rep.absorb(ex)
+
+    # ---- From<Handle> for Input
+    fn = _find(mir, r"::from$", "-> Input<'_>")
+    for kind in ("slice", "reader"):
+        ex = X.Exec(mir, mk_handler())
+        ex.inline = inl
+        p0 = X.Path()
+        hd, b, cr, cur = symbolic_handle(p0, kind)
+
+        def fin(p, how, value, kind=kind, ex=ex, b=b, cr=cr, cur=cur):
+            if how == "dead":
+                return
+            if how != "return":
+                rep.bad(Q, "From<Handle> for Input returns", {"kind": "handle"})
+                return
+            if kind == "slice":
+                seen.add("into:slice")
+                c = proj(value, "Slice.0")
+                if p.trace or not ex.valid(p, z3.And(disc(value) == V_["Input::Slice"], disc(c) == 0, proj(c, "Borrowed.0") == b))[0]:
+                    rep.bad(Q, "a slice handle becomes Input::Slice borrowing the same bytes", {"kind": "handle"})
+                return
+            sp = [t for t in p.trace if t[0] == "set_position"]
+            if len(sp) != 1 or not ex.valid(p, asint(sp[0][1]) == 0)[0] or (p.trace and p.trace[0][0] != "set_position"):
+                rep.bad(Q, "handing a reader handle over rewinds it first (whatever detection read is replayed to the translator)", {"kind": "handle"})
+                return
+            buf = proj(cur, "buf")
+            empty = asint(pure_fn("vec_is_empty", 1)(buf)) != 0
+            if ex.valid(p, asint(proj(cr, EOF)) != 0)[0]:
+                seen.add("into:eof")
+                c = proj(value, "Slice.0")
+                if not ex.valid(p, z3.And(disc(value) == V_["Input::Slice"], disc(c) == 1, proj(c, "Owned.0") == buf))[0]:
+                    rep.bad(Q, "an exhausted reader handle becomes Input::Slice owning everything that was captured", {"kind": "handle"})
+            elif ex.valid(p, empty)[0]:
+                seen.add("into:untouched")
+                if not ex.valid(p, z3.And(disc(value) == V_["Input::Reader"], proj(value, "Reader.0") == proj(cr, SRC)))[0]:
+                    rep.bad(Q, "a reader handle nothing was captured from is handed over as the original source", {"kind": "handle"})
+            elif ex.valid(p, z3.Not(empty))[0]:
+                seen.add("into:chain")
+                ch = proj(value, "Reader.0")
+                fused = proj(ch, "first")
+                cu = proj(proj(fused, "f0"), "Some.0")
+                if not ex.valid(p, z3.And(disc(value) == V_["Input::Reader"], proj(ch, "second") == proj(cr, SRC), disc(proj(fused, "f0")) == 1,
+                                          proj(cu, "buf") == buf, asint(proj(cu, "pos")) == 0))[0]:
+                    rep.bad(Q, "a partly captured reader handle is handed over as (captured bytes from position 0) chained before (the source): nothing lost, nothing repeated, in this order", {"kind": "handle"})
+            else:
+                rep.bad(Q, "From<Handle> decides on source_eof and on whether anything was captured", {"kind": "handle"})
+        ex.run(fn, p0, [hd], fin)
+        rep.absorb(ex)
+
+    # ---- TryFrom<Handle> for Cow
+    fn = _find(mir, r"::try_from$", "_1: Handle<'_>")
+    for kind in ("slice", "reader"):
+        ex = X.Exec(mir, mk_handler())
+        ex.inline = inl
+        p0 = X.Path()
+        hd, b, cr, cur = symbolic_handle(p0, kind)
+
+        def fin(p, how, value, kind=kind, ex=ex, b=b, cr=cr, cur=cur):
+            if how == "dead":
+                return
+            if how != "return":
+                rep.bad(Q, "TryFrom<Handle> for Cow returns", {"kind": "handle"})
+                return
+            if kind == "slice":
+                seen.add("cow:slice")
+                c = proj(value, "Ok.0")
+                if p.trace or not ex.valid(p, z3.And(disc(value) == 0, disc(c) == 0, proj(c, "Borrowed.0") == b))[0]:
+                    rep.bad(Q, "a slice handle becomes a borrowed Cow of the same bytes", {"kind": "handle"})
+                return
+            ev = [t for t in p.trace if t[0] in ("set_position", "capture")]  # (fused_new is not an event of this function)
+            if [t[0] for t in ev] != ["set_position", "capture"] or ev[1][1] != "to_end" or not ex.valid(p, asint(ev[0][1]) == 0)[0]:
+                rep.bad(Q, "collecting a reader handle rewinds it, then captures the source to its end (once)", {"kind": "handle", "events": [t[0] for t in ev]})
+                return
+            r = ev[1][3]
+            if ex.valid(p, disc(r) == 1)[0]:
+                seen.add("cow:err")
+                if not ex.valid(p, z3.And(disc(value) == 1, proj(value, "Err.0") == proj(r, "Err.0")))[0]:
+                    rep.bad(Q, "a source error while collecting is returned as it is", {"kind": "handle"})
+            else:
+                seen.add("cow:ok")
+                if not ex.valid(p, z3.And(disc(value) == 0, disc(proj(value, "Ok.0")) == 1))[0]:
+                    rep.bad(Q, "a collected reader handle becomes an owned Cow", {"kind": "handle"})
+        ex.run(fn, p0, [hd], fin)
+        rep.absorb(ex)
+
+    # ---- Ref::prefix
+    fn = _find(mir, r"::prefix$", "_1: &mut input::Ref<'_, '_>")
+    for kind in ("slice", "reader"):
+        ex = X.Exec(mir, mk_handler())
+        ex.inline = inl
+        p0 = X.Path()
+        rf, b, cr, hint = fresh("ref"), fresh("bytes"), fresh("capture"), fresh("hint")
+        if kind == "slice":
+            p0.pc += [disc(rf) == V_["Ref::Slice"], proj(rf, "Slice.0") == b]
+        else:
+            p0.pc += [disc(rf) == V_["Ref::Reader"], proj(rf, "Reader.0") == cr]
+
+        def fin(p, how, value, kind=kind, ex=ex, b=b, cr=cr, hint=hint):
+            if how == "dead":
+                return
+            if how != "return":
+                rep.bad(Q, "Ref::prefix returns", {"kind": "handle"})
+                return
+            caps = [t for t in p.trace if t[0] == "capture"]
+            if kind == "slice":
+                seen.add("prefix:slice")
+                if caps or not ex.valid(p, z3.And(disc(value) == 0, proj(value, "Ok.0") == b))[0]:
+                    rep.bad(Q, "the prefix of a slice is the whole slice", {"kind": "handle"})
+                return
+            if len(caps) != 1 or caps[0][1] != "up_to_size" or not ex.valid(p, z3.And(caps[0][2][0] == cr, caps[0][2][1] == hint))[0]:
+                rep.bad(Q, "the prefix of a reader captures up to exactly the requested size, once", {"kind": "handle"})
+                return
+            r = caps[0][3]
+            if ex.valid(p, disc(r) == 1)[0]:
+                seen.add("prefix:err")
+                if not ex.valid(p, z3.And(disc(value) == 1, proj(value, "Err.0") == proj(r, "Err.0")))[0]:
+                    rep.bad(Q, "a source error while capturing the prefix is returned as it is (it is the input's own I/O error)", {"kind": "handle"})
+            else:
+                seen.add("prefix:ok")
+                if not ex.valid(p, z3.And(disc(value) == 0, proj(value, "Ok.0") == captured(cr, ex.intv(1))))[0]:
+                    rep.bad(Q, "the prefix handed out is what the capture step left in the buffer (read after the capture, from the same reader)", {"kind": "handle"})
+        ex.run(fn, p0, [rf, hint], fin)
+        rep.absorb(ex)
+
+    need = {"borrow:slice", "borrow:eof", "borrow:reader", "into:slice", "into:eof", "into:untouched", "into:chain", "cow:slice", "cow:err", "cow:ok",
+            "prefix:slice", "prefix:err", "prefix:ok"}
+    if seen != need and not any(v[0] == Q for v in rep.violations):
+        raise Inconclusive("K21 vacuity: outcomes not reached: %r" % sorted(need - seen))
+    rep.witnesses.append("handle glue: %s" % sorted(seen))
+    rep.samples.append({"query": Q, "claim": "borrow_mut / From<Handle> for Input / TryFrom<Handle> for Cow / Ref::prefix over Box<dyn Read>: rewind before every use, "
+                        "captured bytes (from 0) chained before the source, source errors passed through"})
